@@ -9,7 +9,7 @@ from concurrent.futures import ThreadPoolExecutor
 from . import session
 from .. import vlib as V
 
-FAMILIES = [("mix", 1.0), ("three", 0.6), ("delay", 0.3), ("death3", 0.5), ("death", 0.3)]
+FAMILIES = [("mix", 1.0), ("three", 0.6), ("delay", 0.3), ("death3", 0.5), ("death", 0.3), ("hsloss", 0.4)]
 
 
 def canon_events(line):
